@@ -12,31 +12,35 @@ from core import proto
 from .common import case, ordinal_instance, strict, rand_perm
 
 ID = "C04"
-RULE = ("exhaustive: every set of distinct strict orders over 3 alternatives (2^6 subsets) and over 4 alternatives "
-        "with n <= 4 (quick) / n <= 5 (thorough) distinct orders, each in two storage orders (sorted, reversed) plus "
-        "one random shuffle; random: swap-walk single-crossing sequences (m <= 6, n <= 7) shuffled, with and without "
+RULE = ("exhaustive: every set of distinct strict orders over 3 alternatives (2^6 subsets, ids 0..2 and 1..3) in EVERY "
+        "storage order; over 4 alternatives every set of n <= 4 (quick) / n <= 5 (thorough) distinct orders, in every "
+        "storage order for n <= 3 (quick) / n <= 4 (thorough), else sorted, reversed and one random shuffle; "
+        "single-crossing chains (maximal and sub-chains, m <= 8) stored with every choice of the first two stored "
+        "orders (first stored order in the middle of the chain, tails of different lengths, n < m and n >= m); "
+        "switch-back profiles (a chain plus an order beyond its end that switches back a pair switched before the first "
+        "stored order: every single order is compatible with the first two stored orders); random: swap-walk single-crossing sequences (m <= 6, n <= 7) shuffled, with and without "
         "one off-sequence order, 'stars' (a sequence plus two or three adjacent-swap neighbours of one member, m <= 8, "
         "n <= 15: score ties), uniformly random sets of orders (m <= 6, n <= 7); large planted single-crossing profiles (m <= 12, "
         "n <= 40) and large negatives (planted profile + embedded refuted core). "
         "non-trivial = at least 3 distinct orders")
-EXHAUSTIVE = {"quick": "all subsets of the 6 orders over 3 alternatives; all sets of <= 4 distinct orders over 4 "
-                       "alternatives; x {sorted, reversed, shuffled} storage order; all sets of <= 2 orders over 5 "
-                       "alternatives in both storage orders",
-              "thorough": "all subsets of the 6 orders over 3 alternatives; all sets of <= 5 distinct orders over 4 "
-                          "alternatives; x {sorted, reversed, shuffled} storage order; all sets of <= 2 orders over "
-                          "5 alternatives in both storage orders"}
+EXHAUSTIVE = {"quick": "m=3: all subsets of the 6 orders in every storage order (ids 0..2 and 1..3); m=4: all sets of "
+                       "<= 4 distinct orders, every storage order for n <= 3, {sorted, reversed, shuffled} for n = 4; "
+                       "m=5: all sets of <= 2 orders in both storage orders",
+              "thorough": "m=3: all subsets of the 6 orders in every storage order (ids 0..2 and 1..3); m=4: all sets "
+                          "of <= 5 distinct orders, every storage order for n <= 4, {sorted, reversed, shuffled} for "
+                          "n = 5; m=5: all sets of <= 2 orders in both storage orders"}
 TRUSTED = ["(R) not mirrored: the Kendall-tau scoring / sort / bucket strategy of is_single_crossing and the set "
            "manipulation of is_single_crossing_conflict_sets; they are compared with the proved references "
            "c04.decide (n <= 7) and c04.cdecide (all generated sizes) and the returned sequence is checked by the "
            "verified checker c04.check at every size",
            "OrdinalInstance.flatten_strict (tuple of the single member of each class) is used as is"]
 ASSUMPTIONS = ["profiles are duplicate-free lists of strict complete orders over the alternatives of the instance "
-               "(data type soc), at least one order; alternatives are positive integers; multiplicities arbitrary >= 1"]
+               "(data type soc), at least one order; alternatives are non-negative integers; multiplicities arbitrary >= 1"]
 TIMEOUT_S = 60.0
-CHUNK = 25
+CHUNK = 200
 
 BRUTE_MAX_N = 7          # c04.decide enumerates n! arrangements
-CONFLICT_IMPL_MAX = 14   # is_single_crossing_conflict_sets is O(n^3 m^3) in Python: only called up to this n
+CONFLICT_IMPL_MAX = 10 ** 9   # is_single_crossing_conflict_sets is always compared (0.3 s at n = 40, m = 12)
 
 
 # ------------------------------------------------------------------------------------------------ generators
@@ -79,6 +83,58 @@ def star(rng, orders, m, k=2):
             if added == k:
                 break
     return orders
+
+
+def max_chain(rng, alts):
+    """a maximal single-crossing chain: single adjacent swaps of pairs not swapped before, until the start order is
+    reversed (always m(m-1)/2 + 1 orders)"""
+    cur = rand_perm(rng, alts)
+    seq = [list(cur)]
+    used = set()
+    while True:
+        cands = [i for i in range(len(cur) - 1) if frozenset((cur[i], cur[i + 1])) not in used]
+        if not cands:
+            return seq
+        i = rng.choice(cands)
+        used.add(frozenset((cur[i], cur[i + 1])))
+        cur[i], cur[i + 1] = cur[i + 1], cur[i]
+        seq.append(list(cur))
+
+
+def sub_chain(rng, chain, n):
+    idx = sorted(rng.sample(range(len(chain)), min(n, len(chain))))
+    return [chain[i] for i in idx]
+
+
+def stored_with_first_two(rng, chain, i, j, how):
+    rest = [o for k, o in enumerate(chain) if k not in (i, j)]
+    if how == 1:
+        rest = rest[::-1]
+    elif how == 2:
+        rng.shuffle(rest)
+    return [chain[i], chain[j]] + rest
+
+
+def disagree(o1, o2):
+    pos1 = {a: k for k, a in enumerate(o1)}
+    pos2 = {a: k for k, a in enumerate(o2)}
+    return {frozenset((a, b)) for a in o1 for b in o1 if a != b and (pos1[a] < pos1[b]) != (pos2[a] < pos2[b])}
+
+
+def switchback(rng, chain, i, j):
+    """chain c_0..c_L single-crossing, v1 = c_i, v2 = c_j (1 <= i < j): add an order past the end of the chain that
+    switches BACK an (adjacent) pair which already switched between c_0 and c_i.  Every order taken alone is
+    compatible with v1, v2 (the Kendall-tau distances to v1 and v2 are additive), the violation only shows in the
+    verification of the whole sequence.  Returns the extra order or None."""
+    before = disagree(chain[0], chain[i])
+    last = chain[-1]
+    cands = [k for k in range(len(last) - 1) if frozenset((last[k], last[k + 1])) in before]
+    if not cands:
+        return None
+    k = rng.choice(cands)
+    x = list(last)
+    x[k], x[k + 1] = x[k + 1], x[k]
+    return x if x not in chain else None
 
 
 def mults(rng, n, heavy):
@@ -132,19 +188,26 @@ def generate(tier, seed):
     rng = random.Random(1000003 * seed + 4)
     quick = tier == "quick"
     out = []
-    # ---- exhaustive m = 3: all 2^6 - 1 non-empty sets of orders
-    alts3 = [1, 2, 3]
-    P3 = [list(p) for p in itertools.permutations(alts3)]
-    for k in range(1, 7):
-        for sub in itertools.combinations(P3, k):
-            out.extend(storage_variants(rng, alts3, sub, exh=1))
-    # ---- exhaustive m = 4
+    # ---- exhaustive m = 3: all 2^6 - 1 non-empty sets of orders, in EVERY storage order (1956 lists);
+    #      alternatives 0,1,2 (id 0 included) and 1,2,3
+    for alts3 in ([0, 1, 2], [1, 2, 3]):
+        P3 = [list(p) for p in itertools.permutations(alts3)]
+        for k in range(1, 7):
+            for sub in itertools.combinations(P3, k):
+                for st in itertools.permutations(sub):
+                    out.append(mk(alts3, st, exh=1, storage="all"))
+    # ---- exhaustive m = 4: every storage order for n <= 3 (thorough: n <= 4); three storage orders beyond
     alts4 = [1, 2, 3, 4]
     P4 = [list(p) for p in itertools.permutations(alts4)]
     nmax = 4 if quick else 5
+    nall = 3 if quick else 4
     for k in range(1, nmax + 1):
         for sub in itertools.combinations(P4, k):
-            out.extend(storage_variants(rng, alts4, sub, exh=1))
+            if k <= nall:
+                for st in itertools.permutations(sub):
+                    out.append(mk(alts4, st, exh=1, storage="all"))
+            else:
+                out.extend(storage_variants(rng, alts4, sub, exh=1))
     for k, cnt in ((5, 600), (6, 300), (7, 100)) if quick else ((6, 4000), (7, 1500)):
         for _ in range(cnt):
             sub = rng.sample(P4, k)
@@ -223,6 +286,54 @@ def generate(tier, seed):
     for _ in range(1500 if quick else 20000):
         sub = rng.sample(P5, rng.randint(3, 7))
         out.append(mk(alts5, sub, gen="random"))
+    # ---- chains stored with the first stored order in the middle: every choice of the first two stored orders for
+    #      chains of <= 7 orders (maximal chains of 4 alternatives have 7), sampled choices beyond; sub-chains give
+    #      n < m and n >= m and tails of different lengths on the two sides of the first stored order
+    nchain = 12 if quick else 120
+    for m in (3, 4, 5, 6, 7, 8):
+        alts = list(range(1, m + 1)) if m % 2 == 0 else list(range(0, m))
+        for ci in range(nchain if m <= 6 else max(2, nchain // 3)):
+            full = max_chain(rng, alts)
+            sizes = sorted(set([3, 4, 5, 6, 7, m - 1, m, m + 1, len(full)]))
+            for nn in sizes:
+                if nn < 3 or nn > len(full):
+                    continue
+                ch = full if nn == len(full) else sub_chain(rng, full, nn)
+                L = len(ch)
+                if L <= 7:
+                    choices = [(i, j) for i in range(L) for j in range(L) if i != j]
+                else:
+                    choices = [(rng.randint(1, L - 2), None) for _ in range(10)]
+                    choices = [(i, rng.choice([k for k in range(L) if k != i])) for i, _ in choices]
+                for (i, j) in choices:
+                    st = stored_with_first_two(rng, ch, i, j, (i + j + ci) % 3)
+                    out.append(mk(alts, st, mults(rng, L, (i + j) % 2 == 0), gen="chain-mid",
+                                  first_mid=int(0 < i < L - 1), tails="%d/%d" % (min(i, L - 1 - i), max(i, L - 1 - i))))
+    # ---- switch-backs: not single-crossing although every order is compatible with the first two stored orders
+    nsb = 600 if quick else 6000
+    made = 0
+    tries = 0
+    while made < nsb and tries < 20 * nsb:
+        tries += 1
+        m = rng.randint(3, 7)
+        alts = list(range(1, m + 1))
+        full = max_chain(rng, alts)
+        L = rng.randint(3, min(len(full) - 1, 9))
+        # a prefix-free window of the maximal chain, so that there is room past its end
+        ch = sub_chain(rng, full[:-1], L)
+        if len(ch) < 3:
+            continue
+        i = rng.randint(1, len(ch) - 2)
+        j = rng.randint(i + 1, len(ch) - 1)
+        x = switchback(rng, ch, i, j)
+        if x is None:
+            continue
+        st = stored_with_first_two(rng, ch + [x], i, j, tries % 3)
+        if tries % 2:
+            # mirror image: v1 = c_j, v2 = c_i; the extra order is then 'before v1', the pair switches 'after v2'
+            st[0], st[1] = st[1], st[0]
+        out.append(mk(alts, st, mults(rng, len(st), tries % 2 == 0), gen="switchback"))
+        made += 1
     # ---- large planted single-crossing profiles: witness check at full size
     nlarge = 60 if quick else 500
     for i in range(nlarge):
@@ -298,7 +409,8 @@ def oracle_requests(c, r):
     else:
         reqs.append(("c04.cdecide", [alts, orders]))
     # second reference (polynomial, proved equivalent) — cross-check of the extracted model itself
-    reqs.append(("c04.cdecide", [alts, orders]))
+    if reqs[0][0] != "c04.cdecide":
+        reqs.append(("c04.cdecide", [alts, orders]))
     # witness
     if isinstance(r, list) and r[0] == 1:
         reqs.append(("c04.check", [alts, orders, r[1]]))
@@ -306,6 +418,9 @@ def oracle_requests(c, r):
 
 
 def judge(c, r, mres):
+    mres = list(mres)
+    if len(c["payload"][1]) > BRUTE_MAX_N and c["op"] != "c04.core":
+        mres.insert(1, mres[0])          # the only reference is c04.cdecide
     ref = mres[0]
     cref = mres[1]
     if c["op"] == "c04.core":
@@ -347,6 +462,14 @@ def stats(c, r, m):
     path = "n<m" if n < mm else "n>=m"
     lab = [f"verdict {v}", f"path {path} {v}", f"n={_bucket(n)}", f"m={mm if mm <= 6 else '>6'}",
            "gen " + str(c["tags"].get("gen", "exhaustive" if c["tags"].get("exh") else "sampled-m4"))]
+    g = c["tags"].get("gen")
+    if g in ("chain-mid", "switchback", "star", "walk+1", "neg-core"):
+        lab.append(f"gen {g} {v} {path}")
+    if g == "chain-mid":
+        lab.append("chain-mid first stored %s, %s" % ("in the middle" if c["tags"].get("first_mid") else "at an end", path))
+        lab.append("chain-mid tails " + ("equal" if len(set(c["tags"]["tails"].split("/"))) == 1 else "different"))
+    if c["tags"].get("storage") == "all":
+        lab.append("every storage order, m=%d n=%d" % (mm, n))
     if isinstance(r, list) and r[2] != -1:
         lab.append("conflict_sets compared")
     if any(x > 1 for x in pl[2]):
